@@ -1,5 +1,6 @@
 import SkgVerif.Model.Propagate
 import SkgVerif.Lemmas.Edges
+import SkgVerif.Lemmas.Median
 /-!
 # C19 — uncertainty propagation: ordered, reproducible bounds; source left untouched
 -/
@@ -12,6 +13,13 @@ theorem C19_ordered (xs : List Rat) (hne : xs ≠ []) (q : Rat) (h0 : 0 ≤ q) (
   constructor
   · apply C02_quantile_mono' xs hne <;> linarith
   · apply C02_quantile_mono' xs hne <;> linarith
+
+/-- the middle value is the median (`np.median`) of the Monte-Carlo members -/
+theorem C19_median (xs : List Rat) (hne : xs ≠ []) (q : Rat) :
+    median xs = some (bounds xs q).2.1 := by
+  rw [median_eq_quantile_half xs hne]
+  unfold bounds percentile
+  norm_num
 
 /-- lowering q towards the full min-max range never narrows an interval -/
 theorem C19_monotone_q (xs : List Rat) (hne : xs ≠ []) (q₁ q₂ : Rat) (h0 : 0 ≤ q₁) (h12 : q₁ ≤ q₂) :
